@@ -4,7 +4,7 @@ from concurrent.futures import ThreadPoolExecutor
 import vf, _replay as R
 
 MODULE = "DatagramSession"
-INVS = "TypeOK CountMatches OneRecordOneSocket QuiescentEmpty CloseNotifyOnce OpenAnswered NoClearText"
+INVS = "TypeOK CountMatches OneRecordOneSocket QuiescentEmpty CloseNotifyOnce OpenAnswered NoClearText FreshNotExpired"
 PROPS = "NoRelayUnlessLive ReplyToRequester"
 HFILES = {"udp": ["common/common_test.go.tmpl", "udp/dgcore_test.go.tmpl", "udp/dgsession_test.go"],
           "icmp": ["common/common_test.go.tmpl", "udp/dgcore_test.go.tmpl", "icmp/dgsession_test.go"]}
@@ -46,6 +46,9 @@ def dev_cfgs(kind):
         "DevCloseNotifiesWrongPeer": (two(), "CloseNotifyOnce"),
         "DevErrKeepsSocket": (two(), "OneRecordOneSocket"),
         "DevEmitAfterCloseInClear": (consts(kind, ("A1", "B3"), ("A1",), ("A",), ("enc",), 2, 2, 0, split=True), None),
+        "DevRemoveKeepsRequestIndex": (two(), "OneRecordOneSocket"),
+        "DevCloseAnsweredWithClose": (two(), "CloseNotifyOnce"),
+        "DevDatagramDoesNotRefreshActivity": (two(), "FreshNotExpired"),
     }
 
 
@@ -60,8 +63,9 @@ def replay_cfgs(ctx, kind):
         # no ephemeral key: the session runs unencrypted
         "plain": consts(kind, ("A1",), ("A1",), ("A",), ("plain",), 1, 2, 1),
     }
-    if not q:
-        out["three"] = consts(kind, ("A1", "A2", "B3"), ("A1",), ("A",), ("enc", "badkey"), 2, 1, 1)
+    if not q and kind == "udp":
+        # three slots, two of one peer: the limit is reached with two live sessions
+        out["three"] = consts(kind, ("A1", "A2", "B3"), (), ("A",), ("enc",), 2, 0, 1)
     return out
 
 
@@ -251,7 +255,7 @@ def describe(mm):
 def trace_cfg(c):
     cc = " ".join("%s = %s" % (k, v) for k, v in c.items())
     return ("CONSTANTS %s Dev = {} Emit = FALSE\nINIT TraceInit\nNEXT TraceNext\nCONSTRAINT HighWater\n"
-            "INVARIANTS CountMatches OneRecordOneSocket QuiescentEmpty CloseNotifyOnce OpenAnswered NoClearText\n"
+            "INVARIANTS CountMatches OneRecordOneSocket QuiescentEmpty CloseNotifyOnce OpenAnswered NoClearText FreshNotExpired\n"
             "POSTCONDITION TraceAccepted\n" % cc)
 
 
@@ -353,7 +357,8 @@ def accepted_by(ctx, tag, c, events, devsets):
 
 CLASS_DEVS = ["DevCounterNotDecrementedOnErr", "DevCloseTwiceNotifiesTwice", "DevIdleCleanupKeepsRecord",
               "DevDatagramAfterClose", "DevLimitCheckThenAct", "DevReplyToWrongAssociation", "DevCloseNotifiesWrongPeer",
-              "DevErrKeepsSocket", "DevKeyedByStreamIdOnly"]
+              "DevErrKeepsSocket", "DevKeyedByStreamIdOnly", "DevRemoveKeepsRequestIndex", "DevCloseAnsweredWithClose",
+              "DevDatagramDoesNotRefreshActivity"]
 
 
 def classify(ctx, tag, c, doc, mm):
